@@ -149,6 +149,9 @@ class CenteredInterval(BaseInterval):
             return self.vcenter - self.half_range, self.vcenter + self.half_range
 
         values = np.asarray(values).ravel()
+        if np.issubdtype(values.dtype, np.integer):
+            # distances from the centre would otherwise be taken in the integer dtype and wrap
+            values = values.astype(np.float64)
         values = values[np.isfinite(values)]
         vmin = np.min(values)
         vmax = np.max(values)
